@@ -229,6 +229,9 @@ type CardCase struct {
 	Parent string `json:"parent"`
 	Child  string `json:"child"`
 	M      int    `json:"m"`
+	// Kinds: for the child "deviate", the kind of each copy (1 add, 2 replace, 3 delete, else not-supported): what the
+	// tables say about "deviate" holds for every kind and every mixture of kinds
+	Kinds []int `json:"kinds,omitempty"`
 }
 
 func buildCard(c CardCase) (*S, int) {
@@ -241,7 +244,11 @@ func buildCard(c CardCase) (*S, int) {
 		}
 	}
 	for i := 0; i < c.M; i++ {
-		kids = append(kids, sample(c.Child, i, c.Parent))
+		k := sample(c.Child, i, c.Parent)
+		if c.Child == "deviate" && i < len(c.Kinds) {
+			k.Arg = []string{"not-supported", "add", "replace", "delete"}[c.Kinds[i]%4]
+		}
+		kids = append(kids, k)
 	}
 	// lists, input, output and augment keep at least one data node (ABNF 1*data-def-stmt)
 	switch c.Parent {
@@ -264,7 +271,7 @@ func buildCard(c CardCase) (*S, int) {
 }
 
 func checkCard(c CardCase) fw.Outcome {
-	out := fw.Outcome{NonTrivial: true, Key: fmt.Sprintf("%s/%s/%d", c.Parent, c.Child, c.M)}
+	out := fw.Outcome{NonTrivial: true, Key: fmt.Sprintf("%s/%s/%d%v", c.Parent, c.Child, c.M, c.Kinds)}
 	want := cardVerdict(c.Parent, c.Child, c.M)
 	if want < 0 {
 		out.Skip = true
@@ -346,8 +353,20 @@ func TestCardinalityTriples(t *testing.T) {
 				continue // never substatements; a second root is a file-level matter
 			}
 			for m := 0; m <= 2; m++ {
-				fw.Eval(cardProp, "", CardCase{p, c, m})
+				fw.Eval(cardProp, "", CardCase{Parent: p, Child: c, M: m})
 				n++
+			}
+			if c == "deviate" {
+				// every kind once, twice, and every ordered pair of kinds; three of a kind
+				for a := 0; a < 4; a++ {
+					fw.Eval(cardProp, "", CardCase{Parent: p, Child: c, M: 1, Kinds: []int{a}})
+					fw.Eval(cardProp, "", CardCase{Parent: p, Child: c, M: 3, Kinds: []int{a, a, a}})
+					n += 2
+					for b := 0; b < 4; b++ {
+						fw.Eval(cardProp, "", CardCase{Parent: p, Child: c, M: 2, Kinds: []int{a, b}})
+						n++
+					}
+				}
 			}
 		}
 		// keywords that are neither YANG statements nor prefixed extensions are rejected everywhere
@@ -355,7 +374,7 @@ func TestCardinalityTriples(t *testing.T) {
 			if unk == "x;y" {
 				continue
 			}
-			fw.Eval(cardProp, "", CardCase{p, unk, 1})
+			fw.Eval(cardProp, "", CardCase{Parent: p, Child: unk, M: 1})
 			n++
 		}
 		// prefixed extension statements are accepted anywhere
